@@ -39,6 +39,8 @@ import Generated.ReadersSpec
 import CijProofs.Lemmas.ShearGlueSource
 import CijProofs.Lemmas.FullModulusGlueAxial
 import CijProofs.Lemmas.StaticUnits
+import Generated.CalcGlueSpec
+import CijProofs.Lemmas.FillSource
 namespace Cij.C05
 
 open Cij.LeastSq Cij.FullModulus
@@ -590,5 +592,19 @@ theorem c05_shear_glue_is_source {α : Type} [Add α] [Sub α] [Mul α] [Div α]
     Cij.ShearGlue.runSr env [] Generated.ShearGlue.cls.strainRotated.2 = some (.rows (Cij.Shear.strainRotated T s)) ∧
     Generated.ShearGlue.definedFunctions.length = 18 :=
   ⟨Cij.ShearGlue.strainRotated_stmts_is_source env T s hs hT, by decide⟩
+
+/-- `Calculator.__init__` as translated on this run calls `_calculate_pressure_static()` WITHOUT arguments — so the static pressure that enters
+the off-diagonal moduli is the cubic (default order 3, `c05_glue_is_source_static_pressure`) whatever EOS order the qha settings ask for —
+after the modes are interpolated and before the moduli are assembled -/
+theorem c05_static_pressure_call_is_source :
+    ("call", "_calculate_pressure_static", []) ∈ Generated.CalcGlue.initSteps ∧
+    (Generated.CalcGlue.initSteps.map (·.2.1)).filter (fun m => m = "_interpolate_modes" ∨ m = "_calculate_pressure_static" ∨ m = "_process_cij") =
+      ["_interpolate_modes", "_calculate_pressure_static", "_process_cij"] := by decide
+
+/-- `cij/util/fill.py` as translated on this run: a component is dropped by the DROP tolerance (`drop_atol`, not the residual tolerance) against
+the target 0, and the verdict is the model's — so a small but non-vanishing symmetry-allowed component stays in the table the moduli are fitted from -/
+theorem c05_fill_drop_is_source : Generated.fillDropAtolParam = .dropAtol ∧ Generated.fillDropTarget = (0, 1) ∧
+    Cij.Fill.symbolNames = Generated.fillSymbols :=
+  ⟨by decide, by decide, Cij.FillSource.symbols_are_source⟩
 
 end Cij.C05
